@@ -98,8 +98,10 @@ def impl_line(cfg, s):
 
 TIES = {
     # name: (implementation, python function, tokens, (quick, thorough) exhaustive length, (quick, thorough) random cases)
-    "unescape": ("_unescape", impl_unescape, [BS, DQ, "'", "n", "a", " "], (6, 7), (3000, 60000)),
-    "extract": ("_extract_message", impl_extract, [DQ, BS, " ", "\t", "\x1f", "\u200b", "a", "|"], (5, 6), (4000, 80000)),
+    "unescape": ("_unescape", impl_unescape, [BS, DQ, "'", "n", "t", "r", "0", "x", "u", "a", " "], (5, 6), (3000, 60000)),
+    # (compound tokens - an opened message, every two-character escape - keep the witnesses of escape handling short)
+    "extract": ("_extract_message", impl_extract, [DQ, BS, " ", "\t", "\x1f", "\u200b", "a", "|", "n", "t", 'a "', BS + BS, BS + DQ, BS + "n", BS + "t", BS + "a"],
+                (4, 5), (6000, 100000)),
     "anchor": ("_strip_exact_anchor", impl_anchor, ["|", " ", "\t", "\u3000", "a", BS, DQ], (5, 6), (2000, 40000)),
     "classify": ("_classify_token", impl_classify, ["://", ":/", ":", "$", "/", "~", ".", "..", "a", " "], (5, 6), (3000, 60000)),
     "tildes": ("_expand_pattern_tildes", impl_tildes, ["~", "~/", "/", " ", "\t", "\u3000", "a", "://", "$", "~u"], (4, 5),
